@@ -164,4 +164,110 @@ Qed.
 
 End Header.
 
+(* ---- data records ---------------------------------------------------------------------- *)
+Section Data.
+Variables (V : Z) (rows : list (list cell)).
+Let nrows := len rows.
+Hypothesis Hoffs0 : nthZ offs 0 = 0.
+Hypothesis Hbudget : forall c, 0 <= c < ncols -> nthZ offs c + len (CB rows c) < nthZ offs (c + 1).
+Hypothesis HV : nthZ offs ncols <= V.
+Hypothesis Hrows : nrows < maxrow.
+
+Notation Good := (Good ncols w V offs rows).
+
+Definition cstate (i e c r:Z) (inds:arr2) (vals:list Z) : st :=
+  mkSt i e c r (-1) false false 0 (I2 inds c r) i false false (nthZ offs c) (nthZ offs (c + 1) - nthZ offs c) inds vals.
+
+Lemma run_data_cells r : 0 <= r < nrows -> forall cells c i e inds vals rest,
+  cells <> [] -> 0 <= c -> c + len cells = ncols -> 0 <= i ->
+  suf src i = render_row cells ++ rest -> nows rest ->
+  (forall j, 0 <= j < len cells -> snd (nthd (false, []) cells j) = cell_text rows r (c + j)) ->
+  Good (fun x => if x <? c then r + 1 else r) inds vals ->
+  exists n s_pre inds' vals',
+    runn n (cstate i e c r inds vals) s_pre /\
+    step s_pre = Ok (cstate (i + len (render_row cells)) (i + len (render_row cells) - 1) 0 (r + 1) inds' vals') /\
+    Good (fun _ => r + 1) inds' vals'.
+Proof.
+  intros Hr. assert (Er : (0 <=? r) = true) by (apply Z.leb_le; lia).
+  assert (Er2 : (r <? 0) = false) by (apply Z.ltb_ge; lia).
+  induction cells as [|cl cells IH]; intros c i e inds vals rest Hne Hc Hlen Hi H Hn Htxt HG; [contradiction|].
+  assert (Htc : snd cl = cell_text rows r c).
+  { specialize (Htxt 0). rewrite Z.add_0_r in Htxt. apply Htxt. rewrite len_cons. pose proof (len_nonneg cells). lia. }
+  assert (Hcn : 0 <= c < ncols) by (rewrite len_cons in Hlen; pose proof (len_nonneg cells); lia).
+  assert (Hfc : (if c <? c then r + 1 else r) = r) by (rewrite Z.ltb_irrefl; reflexivity).
+  pose proof (Good_fits ncols w V offs rows Hoffs0 Hbudget HV _ inds vals c r HG Hcn Hr) as (F1 & F2 & F3).
+  assert (Hcs : I2 inds c r = P rows c r).
+  { destruct HG as (_ & _ & HGc). destruct (HGc c Hcn) as (_ & Hk & _). apply Hk. rewrite Hfc. lia. }
+  assert (Hsh : shape ncols w inds) by (destruct HG as (Hsh & _); exact Hsh).
+  pose proof (Good_cell ncols w V offs rows Hoffs0 Hbudget HV _ inds vals c r HG Hcn Hfc Hr ltac:(unfold w; lia)) as HG1.
+  assert (Hfit : fits r (I2 inds c r) (nthZ offs c) (nthZ offs (c + 1) - nthZ offs c) 0 vals (snd cl)).
+  { unfold fits. intros _. rewrite Hcs, Htc. lia. }
+  pose proof (len_nonneg (render_cell cl)) as Hl.
+  destruct cells as [|cl2 cells].
+  - (* last cell of the record *)
+    cbn [render_row] in *. rewrite <- app_assoc in H. cbn [app] in H.
+    destruct (run_cell e c r (-1) (I2 inds c r) (nthZ offs c) (nthZ offs (c + 1) - nthZ offs c) inds cl i vals NL rest Hi H
+                ltac:(auto) Hfit) as (n & R).
+    rewrite Er in R.
+    pose proof (suf_app_len src i _ _ Hi H) as Hs.
+    replace (len [cl]) with 1 in Hlen by reflexivity.
+    exists n. eexists. exists (put2 inds c (r + 1) (P rows c r + len (cell_text rows r c))),
+                              (wrs vals (nthZ offs c + P rows c r) (cell_text rows r c)).
+    split; [exact R|]. split.
+    + unfold S0. rewrite (step_nl src offs maxrow ncols Hoffs (i + len (render_cell cl)) e c r (-1) (len (snd cl)) (I2 inds c r) i
+                           (nthZ offs c) (nthZ offs (c + 1) - nthZ offs c) inds _ rest); try assumption; try lia.
+      * rewrite Er. cbv zeta. unfold cstate.
+        replace (len (render_cell cl ++ [NL])) with (len (render_cell cl) + 1) by (rewrite len_app; reflexivity).
+        destruct (r + 1 =? maxrow) eqn:E0; [apply Z.eqb_eq in E0; lia|].
+        rewrite Hcs, Htc. replace (0 + 1) with 1 by lia.
+        f_equal. f_equal; lia.
+    + eapply Good_ext; [|exact HG1]. intros x Hx. cbv beta.
+      destruct (x =? c) eqn:E1; [reflexivity|]. apply Z.eqb_neq in E1.
+      destruct (x <? c) eqn:E2; [reflexivity|]. apply Z.ltb_ge in E2. lia.
+  - (* a cell followed by a separator *)
+    remember (cl2 :: cells) as more eqn:Em.
+    assert (Hmore : more <> []) by (subst; discriminate).
+    assert (Erow : render_row (cl :: more) = render_cell cl ++ SEP :: render_row more) by (subst more; reflexivity).
+    rewrite Erow in *. rewrite <- app_assoc in H. cbn [app] in H.
+    destruct (run_cell e c r (-1) (I2 inds c r) (nthZ offs c) (nthZ offs (c + 1) - nthZ offs c) inds cl i vals SEP
+                (render_row more ++ rest) Hi H ltac:(auto) Hfit) as (n & R).
+    rewrite Er in R.
+    pose proof (suf_app_len src i _ _ Hi H) as Hs.
+    assert (Hlm : len (cl :: more) = len more + 1) by apply len_cons.
+    assert (Hlm0 : 1 <= len more) by (rewrite Em, len_cons; pose proof (len_nonneg cells); lia).
+    rewrite Hlm in Hlen.
+    pose proof (step_sep src offs maxrow ncols Hoffs (i + len (render_cell cl)) e c r (-1) (len (snd cl)) (I2 inds c r) i
+                  (nthZ offs c) (nthZ offs (c + 1) - nthZ offs c) inds (wrs vals (nthZ offs c + I2 inds c r) (snd cl))
+                  (render_row more ++ rest) ltac:(lia) Hs (nows_render_row more rest Hmore) Hsh Hc
+                  ltac:(lia) ltac:(lia) ltac:(unfold w; lia)) as Hst.
+    rewrite Er, Er2 in Hst. cbv zeta in Hst. rewrite Hcs, Htc in Hst.
+    set (inds1 := put2 inds c (r + 1) (P rows c r + len (cell_text rows r c))) in *.
+    set (vals1 := wrs vals (nthZ offs c + P rows c r) (cell_text rows r c)) in *.
+    destruct (suf_cons src (i + len (render_cell cl)) SEP _ ltac:(lia) Hs) as (_ & _ & Hs2 & _).
+    assert (HG2 : Good (fun x => if x <? c + 1 then r + 1 else r) inds1 vals1).
+    { eapply Good_ext; [|exact HG1]. intros x Hx. cbv beta.
+      destruct (x =? c) eqn:E1.
+      - apply Z.eqb_eq in E1. subst x. destruct (c <? c + 1) eqn:E2; [reflexivity|apply Z.ltb_ge in E2; lia].
+      - apply Z.eqb_neq in E1. destruct (x <? c) eqn:E2; destruct (x <? c + 1) eqn:E3; try reflexivity.
+        + apply Z.ltb_lt in E2. apply Z.ltb_ge in E3. lia.
+        + apply Z.ltb_ge in E2. apply Z.ltb_lt in E3. lia. }
+    destruct (IH (c + 1) (i + len (render_cell cl) + 1) e inds1 vals1 rest Hmore ltac:(lia) ltac:(lia) ltac:(lia) Hs2 Hn)
+      as (n2 & s_pre & inds' & vals' & R2 & Hfin & HG3).
+    { intros j Hj. specialize (Htxt (j + 1)). rewrite Hlm in Htxt. specialize (Htxt ltac:(lia)).
+      rewrite nthd_cons_succ in Htxt by lia. rewrite Htxt. f_equal. lia. }
+    { exact HG2. }
+    exists (n + (1 + n2))%nat, s_pre, inds', vals'. split; [|split].
+    + eapply runn_trans; [exact R|]. eapply runn_trans; [|exact R2].
+      apply runn_one.
+      * unfold S0. rewrite Hcs, Htc. fold vals1. rewrite Hst. unfold cstate.
+        replace (c + 1 + 1) with (c + 2) by lia. reflexivity.
+      * unfold noexit, cstate. cbn [s_index s_ifull s_vfull].
+        destruct (render_row more ++ rest) eqn:E2; [destruct (render_row_nonnil more); destruct (render_row more); [reflexivity|discriminate]|].
+        destruct (suf_cons src (i + len (render_cell cl) + 1) _ _ ltac:(lia) Hs2) as (Hlt & _). repeat split; lia.
+    + rewrite Hfin. f_equal. rewrite len_app, len_cons. f_equal; lia.
+    + exact HG3.
+Qed.
+
+End Data.
+
 End Rows.
